@@ -42,6 +42,8 @@ struct Param {
     grad: Option<Vec<Float>>,
     flag: bool,
     ptr: usize,
+    /// second entry of an aliased pair: not checked
+    ambiguous: bool,
 }
 
 fn check_update(ctx: &mut Ctx, fam: &str, params: &mut Vec<Param>, lr: f64, desc: &str) -> bool {
@@ -57,6 +59,9 @@ fn check_update(ctx: &mut Ctx, fam: &str, params: &mut Vec<Param>, lr: f64, desc
     }
     let mut ok = true;
     for (i, p) in params.iter().enumerate() {
+        if p.ambiguous {
+            continue;
+        }
         let now_dims = p.a.dimensions().to_vec();
         let now: Vec<Float> = p.a.values().to_vec();
         match &p.grad {
@@ -121,6 +126,7 @@ fn snapshot(a: Array) -> Param {
         grad,
         flag: is_tracked(&a),
         ptr: a.values().as_ptr() as usize,
+        ambiguous: false,
         a,
     }
 }
@@ -151,7 +157,13 @@ pub fn run_case(ctx: &mut Ctx, fam: &str, k: u64, r: &mut Rng) {
             let a = if r.chance(4, 5) { a.tracked() } else { a };
             if subset >> i & 1 == 1 {
                 let g: Vec<f64> = if dyadic { (0..m).map(|_| 0.25 * r.int(-16, 16)).collect() } else { (0..m).map(|_| r.int(-1000, 1000) / 777.0).collect() };
-                let ga = arr(&shapes[i], &g);
+                // usually the gradient has the parameter's dimensions; a user may also install a buffer of the same
+                // element count under other dimensions (a flat averaged / clipped gradient): the parameter keeps ITS dims
+                let gdims: Vec<usize> = if r.chance(1, 6) { if shapes[i].len() == 1 { vec![1, m] } else { vec![m] } } else { shapes[i].clone() };
+                if gdims != shapes[i] {
+                    ctx.count("gradients_installed_with_other_dims", 1);
+                }
+                let ga = arr(&gdims, &g);
                 if r.chance(1, 2) {
                     installed.push(ga.clone());
                 }
@@ -159,7 +171,22 @@ pub fn run_case(ctx: &mut Ctx, fam: &str, k: u64, r: &mut Rng) {
             }
             params.push(snapshot(a));
         }
-        let rounds = r.range(1, 4);
+        // a list may name one array twice (tied weights: a parameter and a clone of it share the gradient slot). What
+        // happens to the second entry is not specified; every OTHER parameter must still get exactly its own step.
+        let mut alias_at: Option<usize> = None;
+        if n >= 2 && r.chance(1, 6) {
+            let src = r.below(params.len());
+            if params[src].grad.is_some() {
+                let pos = r.range(src + 1, params.len());
+                let c = params[src].a.clone();
+                let mut sp = snapshot(c);
+                sp.ambiguous = true;
+                params.insert(pos, sp);
+                alias_at = Some(pos);
+                ctx.count("lists_with_aliased_entry", 1);
+            }
+        }
+        let rounds = if alias_at.is_some() { 1 } else { r.range(1, 4) };
         for round in 0..rounds {
             if !check_update(ctx, fam, &mut params, lr, &format!("{} round {}", desc, round)) {
                 break;
